@@ -67,4 +67,19 @@ def protoId (name version : Bytes) : Bytes := 47 :: (name ++ (47 :: version))
 def showVersion (v : Version) : Bytes :=
   showDec v.major ++ (46 :: (showDec v.minor ++ (46 :: showDec v.patch)))
 
+/-- a stream descriptor as handed to `AddStreamHandlers`: (protocol name, version string) -/
+abbrev Desc := Bytes × Bytes
+
+/-- the libp2p multistream muxer keeps one handler per key; `AddStreamHandlers` registers a
+descriptor under its *name* (`SetStreamHandlerMatch(protocol.ID(ss.Name), …)`): a later
+registration under the same name replaces the earlier one -/
+def muxInsert (m : List Desc) (d : Desc) : List Desc := m.filter (fun x => x.1 != d.1) ++ [d]
+
+def registerAll (ds : List Desc) : List Desc := ds.foldl muxInsert []
+
+/-- which registered descriptors an incoming identifier is routed to: the match function of a
+descriptor looks at the identifier and at its own descriptor only — not at earlier identifiers -/
+def routedTo (m : List Desc) (incoming : Bytes) : List Desc :=
+  m.filter (fun d => match matchProto incoming d.1 d.2 with | .decided true => true | _ => false)
+
 end MevCommit.Semver
